@@ -53,12 +53,16 @@ func runC14(c *Ctx) {
 	for _, u := range users {
 		db[u.Username] = u.Password
 	}
+	// what the helper's secure random source does: healthy, unavailable while the helper starts,
+	// or handing out a single byte per read
+	c.W.AuthEntropy = []string{"", "fail-at-start", "short-reads"}[c.T.Weighted(8, 1, 1)]
 	node := c.W.StartAuthNode("/sim/auth.sock", users, nil)
 	ns := 1 + c.T.Choose(4)
 	sess := map[string]*ntlmSess{}
 	names := []string{}
 	for i := 0; i < ns; i++ {
-		n := fmt.Sprintf("10.7.0.%d:%d", i+1, 50000+i)
+		// (pairs of sessions are connections from one client machine: same address, other port)
+		n := fmt.Sprintf("10.7.0.%d:%d", i/2+1, 50000+i)
 		names = append(names, n)
 		sess[n] = &ntlmSess{}
 	}
@@ -77,6 +81,47 @@ func runC14(c *Ctx) {
 		return b64(codec.NTLMAuthenticate(nameField, domain, ws, nt, lm, sbk))
 	}
 	dummy := &codec.NTLMChallenge{ServerChallenge: []byte("12345678"), TargetInfo: []byte{0, 0, 0, 0}}
+	if c.W.AuthEntropy == "short-reads" {
+		// forty clients start an exchange: no two of them may be given the same challenge
+		seen := map[string]string{}
+		for k := 0; k < 40 && c.S.Viol == nil; k++ {
+			sn := fmt.Sprintf("10.7.9.%d:%d", 1+k, 51000+k)
+			res := node.CallNTLM(sn, b64(codec.NTLMNegotiate()), 5*time.Second)
+			if res.Resp == nil || res.Resp.NtlmMessage == "" {
+				c.S.Fail("C14", "negotiate-unanswered", "session %s: a well-formed negotiate message got no challenge (err=%v) while the random source hands out one byte per read", sn, res.Err)
+				break
+			}
+			raw, _ := base64.StdEncoding.DecodeString(res.Resp.NtlmMessage)
+			if ch, err := codec.ParseNTLMChallenge(raw); err == nil {
+				if o, dup := seen[string(ch.ServerChallenge)]; dup {
+					c.S.Fail("C14", "challenge-reused", "sessions %s and %s were given the same server challenge %x (the random source hands out one byte per read): a response recorded on one replays on the other", o, sn, ch.ServerChallenge)
+				}
+				seen[string(ch.ServerChallenge)] = sn
+			}
+		}
+	}
+	if c.T.Bool(1, 250) && c.S.Viol == nil {
+		// thousands of clients start exchanges and walk away; minutes later (their exchanges have
+		// lapsed) a user logs in
+		for k := 0; k < 4200; k++ {
+			node.CallNTLM(fmt.Sprintf("10.8.%d.%d:%d", k/250, 1+k%250, 30000+k), b64(codec.NTLMNegotiate()), 5*time.Second)
+		}
+		c.S.Advance(time.Duration(61+c.T.Choose(220)) * time.Second)
+		sn := "10.7.8.8:50888"
+		res := node.CallNTLM(sn, b64(codec.NTLMNegotiate()), 5*time.Second)
+		ok := false
+		if res.Resp != nil && res.Resp.NtlmMessage != "" {
+			raw, _ := base64.StdEncoding.DecodeString(res.Resp.NtlmMessage)
+			if ch, err := codec.ParseNTLMChallenge(raw); err == nil {
+				r2 := node.CallNTLM(sn, mkType3("alice", db["alice"], "", ch), 5*time.Second)
+				ok = r2.Resp != nil && r2.Resp.Authenticated && r2.Resp.Username == "alice"
+			}
+		}
+		c.S.Count("probe.thousands_of_abandoned_exchanges_then_a_login")
+		if !ok {
+			c.S.Fail("C14", "valid-client-refused", "after 4200 abandoned exchanges that lapsed minutes ago, a client that knows alice's password follows the exchange and is not authenticated (negotiate err=%v)", res.Err)
+		}
+	}
 	pendingInsider, pendingSess := "", ""
 	forcedUser, forcedSteps, forcedSess := "", 0, ""
 	for i := 0; i < nops && c.S.Viol == nil; i++ {
@@ -127,7 +172,8 @@ func runC14(c *Ctx) {
 			if ch == nil {
 				ch = dummy
 			}
-			what, msg = "auth-unknown-user", mkType3("mallory", "anything", "", ch)
+			guess := []string{"anything", "", "00000000000000000000000000000000", "0000000000000000", strings.Repeat("\x00", 16)}[c.T.Choose(5)]
+			what, msg = fmt.Sprintf("auth-unknown-user(password %q)", guess), mkType3("mallory", guess, "", ch)
 		case 4:
 			// proof computed against another session's challenge
 			other := sess[names[c.T.Choose(len(names))]]
